@@ -56,7 +56,9 @@ extern "C" void h_scope_history(void) {
       pn[k] = vp_pick(3); pt[k] = vp_pick(3);
       { // interleaved lookups: the name about to be declared is looked up immediately before and immediately after the declaration
          bool before = false; for (int i = 0; i < k; ++i) if (pn[i] == pn[k]) before = true;
-         vp_assert(scope[*w->N[pn[k]]].is_valid() == before, 14);
+         auto pre = scope[*w->N[pn[k]]];
+         vp_assert(pre.is_valid() == before, 14);
+         if (pre.is_valid()) { bool same_pair = false; for (int i = 0; i < k; ++i) if (pn[i] == pn[k] && pt[i] == pt[k]) same_pair = true; vp_assert(pre.get()[*w->TY[pn[k]][pt[k]]].is_valid() == same_pair, 17); }
       }
       d[k] = w->declare(pn[k], pt[k]);
       { auto now = scope[*w->N[pn[k]]]; vp_assert(now.is_valid(), 15);
